@@ -40,6 +40,8 @@ import (
 	"github.com/ethereum/go-ethereum/common"
 	ethtypes "github.com/ethereum/go-ethereum/core/types"
 	"github.com/ethereum/go-ethereum/crypto"
+	"github.com/ethereum/go-ethereum/crypto/kzg4844"
+	"github.com/holiman/uint256"
 	"github.com/onsi/ginkgo/v2"
 	chainparams "github.com/palomachain/paloma/v2/app/params"
 	xchain "github.com/palomachain/paloma/v2/internal/x-chain"
@@ -1661,24 +1663,80 @@ func (h *history) oracleUnagreed(id uint64, b *bodyT, w winInfo, cls int, stillQ
 	}
 }
 
+// the transaction types of the vendored go-ethereum (v1.13: no set-code transactions yet); a blob transaction travels
+// either in its canonical form or in the network form that carries the sidecar -- same transaction, same hash, other bytes
+const (
+	txLegacy = iota
+	txAccessList
+	txDynamicFee
+	txBlob
+	txBlobSidecar
+)
+
+var txTypeNames = []string{"legacy", "access-list", "dynamic-fee", "blob", "blob+sidecar"}
+
 func (h *history) addTx(spec *callSpec, nonce uint64) *txInfo {
+	typ := []int{txLegacy, txAccessList, txDynamicFee, txDynamicFee, txDynamicFee, txBlob, txBlobSidecar}[h.run.Rng.Intn(7)]
+	return h.addTxOf(spec, nonce, typ)
+}
+
+func (h *history) addTxOf(spec *callSpec, nonce uint64, typ int) *txInfo {
 	data, err := spec.pack()
 	if err != nil {
 		h.t.Fatal(err)
 	}
 	key := h.e.vals[0].key
 	to := common.HexToAddress("0x00000000000000000000000000000000000c0de1")
-	inner := &ethtypes.DynamicFeeTx{ChainID: big.NewInt(4242), Nonce: nonce, Gas: 21000, GasFeeCap: big.NewInt(1), GasTipCap: big.NewInt(1), Data: data}
+	var pto *common.Address
 	if spec.Method != 5 {
-		inner.To = &to
+		pto = &to
+	} else if typ >= txBlob {
+		typ = txDynamicFee // a blob transaction cannot create a contract
 	}
-	tx, err := ethtypes.SignNewTx(key, ethtypes.NewLondonSigner(big.NewInt(4242)), inner)
+	var inner ethtypes.TxData
+	switch typ {
+	case txLegacy:
+		inner = &ethtypes.LegacyTx{Nonce: nonce, Gas: 21000, GasPrice: big.NewInt(1), To: pto, Data: data}
+	case txAccessList:
+		inner = &ethtypes.AccessListTx{ChainID: big.NewInt(4242), Nonce: nonce, Gas: 21000, GasPrice: big.NewInt(1), To: pto, Data: data}
+	case txDynamicFee:
+		inner = &ethtypes.DynamicFeeTx{ChainID: big.NewInt(4242), Nonce: nonce, Gas: 21000, GasFeeCap: big.NewInt(1), GasTipCap: big.NewInt(1), To: pto, Data: data}
+	default:
+		sc := &ethtypes.BlobTxSidecar{Blobs: []kzg4844.Blob{{}}, Commitments: []kzg4844.Commitment{{}}, Proofs: []kzg4844.Proof{{}}}
+		bt := &ethtypes.BlobTx{ChainID: uint256.NewInt(4242), Nonce: nonce, Gas: 21000, GasFeeCap: uint256.NewInt(1), GasTipCap: uint256.NewInt(1), To: to, Data: data,
+			BlobFeeCap: uint256.NewInt(1), BlobHashes: sc.BlobHashes()}
+		if typ == txBlobSidecar {
+			bt.Sidecar = sc
+		}
+		inner = bt
+	}
+	tx, err := ethtypes.SignNewTx(key, ethtypes.NewCancunSigner(big.NewInt(4242)), inner)
 	if err != nil {
 		h.t.Fatal(err)
 	}
+	// the bytes must survive the trip through the proof
+	bz, err := tx.MarshalBinary()
+	if err != nil {
+		h.t.Fatal(err)
+	}
+	var back ethtypes.Transaction
+	if err := back.UnmarshalBinary(bz); err != nil || back.Hash() != tx.Hash() {
+		h.t.Fatalf("transaction of type %s does not round-trip: %v", txTypeNames[typ], err)
+	}
+	h.run.Count("B.tx-type", txTypeNames[typ])
 	x := &txInfo{tx: tx, spec: spec, hashID: tab.id(tx.Hash().Bytes())}
 	h.txs = append(h.txs, x)
 	return x
+}
+
+// otherForm: the same blob transaction in its other serialisation (with / without the sidecar); any other transaction as it is
+func (h *history) otherForm(x *txInfo) *txInfo {
+	if x.tx.Type() != ethtypes.BlobTxType || x.tx.BlobTxSidecar() == nil {
+		return x
+	}
+	y := &txInfo{tx: x.tx.WithoutBlobTxSidecar(), spec: x.spec, hashID: x.hashID}
+	h.txs = append(h.txs, y)
+	return y
 }
 
 // receipt variants: what a validator may report about one transaction
@@ -2650,6 +2708,9 @@ func runSameTx(t *testing.T, run *emit.Run, variant int) {
 	}
 	i := 1 + r.Intn(len(signers))
 	x1 := h.rightTx(id1, i, 1)
+	if r.Intn(3) == 0 && x1.spec.Method != 5 { // the delivery was made with a blob transaction, reported in the network form
+		x1 = h.addTxOf(x1.spec, 1, txBlobSidecar)
+	}
 	attest := func(id uint64) int {
 		m, ok := h.msgByID(id)
 		if !ok {
@@ -2662,7 +2723,11 @@ func runSameTx(t *testing.T, run *emit.Run, variant int) {
 	if r.Intn(3) == 0 {
 		h.bumpHeight(1 + int64(r.Intn(400)))
 	}
-	h.everybodyReports(id2, x1, 1) // the transaction of the first message, for the second
+	if r.Intn(2) == 0 {
+		h.everybodyReports(id2, h.otherForm(x1), 1) // the transaction of the first message, for the second (a blob transaction in its other form)
+	} else {
+		h.everybodyReports(id2, x1, 1) // the transaction of the first message, for the second
+	}
 	c2 := attest(id2)
 	c3 := -1
 	if _, still := h.msgByID(id2); still {
@@ -2969,6 +3034,9 @@ func runTwin(t *testing.T, run *emit.Run) {
 	vs, _ := e.snapVS(vid)
 	i := 1 + r.Intn(len(signers))
 	x1 := h.addTx(b.correct(ids[0], 0, vs, h.sigs[ids[0]], i), 1)
+	if r.Intn(3) == 0 {
+		x1 = h.addTxOf(x1.spec, 1, txBlobSidecar)
+	}
 	x2 := h.addTx(b.correct(ids[0], 0, vs, h.sigs[ids[0]], i), 2) // same call data, another transaction
 	evidence := func(id uint64, x *txInfo) {
 		logf("evidence id=%d hash#%d", id, x.hashID)
@@ -3011,7 +3079,11 @@ func runTwin(t *testing.T, run *emit.Run) {
 	publish()
 	c2, c3 := -1, -1
 	if h.ids()[ids[1]] {
-		evidence(ids[1], x1)
+		if r.Intn(2) == 0 {
+			evidence(ids[1], h.otherForm(x1))
+		} else {
+			evidence(ids[1], x1)
+		}
 		c2 = attest(ids[1], r.Intn(2) == 0)
 	}
 	if h.ids()[ids[1]] { // still queued (it always is on the pinned tree: the reuse is refused without a flush)
